@@ -75,14 +75,23 @@ def op_lines(step, mode):
     if k == 'q':
         if op[1] in ('pfcash', 'pfmv', 'pfeq'):
             return ['q %s %s' % (op[1], op[2])]
+        if op[1] == 'cash':
+            return ['q cash %s' % hexs(op[2])]
         return []
     return []      # px / unpx: not broker ops
+
+
+def hexs(text):
+    """arbitrary strings cross the line protocol as `x` + hex of their UTF-8 bytes"""
+    return 'x' + text.encode('utf-8').hex()
 
 
 def build_lines(trace, mode, stepwise=True):
     """Returns (lines, index) where index[i] = (first, last) line numbers of step i (or None)."""
     case = trace['case']
-    lines = ['new %d %d %s' % (case['start'], f2b(case['funds']), fee_tokens(case['fee']))]
+    sup = trace.get('supported', ['USD', 'GBP', 'EUR'])
+    lines = ['newc %d %s %s %d %d %s' % (len(sup), ' '.join(hexs(c) for c in sup), hexs(case.get('cur', 'USD')),
+                                        case['start'], f2b(case['funds']), fee_tokens(case['fee']))]
     index = []
     if trace['new_out'] != 'ok':
         return lines, index
